@@ -14,6 +14,10 @@ interpreted in two ways:
   the trace, and the observed result must be possible in the abstract file system).
 
 Descriptors are handles numbered in order of creation (the trace is canonicalised the same way).
+
+The one call that starts another program, `fork argv stdin`, carries what the child does before it is that program:
+`dup2(stdin, 0)` of THAT handle, `execvp(argv[0], argv)` of THAT vector (util.c `exec()`); the shim observes both in the
+real child, `conform` compares them (package p14).
 -/
 
 namespace Mdsort.Model
